@@ -115,6 +115,12 @@ func vhListOp(s Stack, cfg *nodeConfig, model []any, op int, m int, tag string) 
 	case 7: // Reset
 		s.Reset()
 		model = []any{}
+	case 8: // SetFIFO: a one-way latch, whatever is passed later
+		old := cfg.ord
+		b := nondetBool()
+		s.SetFIFO(b)
+		verifAssert(cfg.ord == (old || b), tag+"fifo-latch")
+		verifAssert(s.IsFIFO() == (old || b), tag+"IsFIFO")
 	}
 	return model
 }
@@ -158,8 +164,30 @@ func vhAssertEnds(s Stack, fifo bool, model []any, id string) {
 // p: n, slack, m, op
 func VH_C01_Step(p []int) {
 	pre := vhArbitraryStack(p[0], p[1], true, vhOptMask&^ronly, 2, 3)
+	if len(p) > 4 && p[4] == 1 {
+		// equal values at several positions and a value that cannot be
+		// compared with ==: operations address positions, never values
+		un := []string{"uncomparable"}
+		for i := range pre.model {
+			if pre.model[i] == nil {
+				continue
+			}
+			if i%3 == 2 {
+				pre.model[i] = un
+			} else {
+				pre.model[i] = "dup"
+			}
+			(*pre.s.stack)[i+1] = pre.model[i]
+		}
+	}
 	snap := vhSnapCfg(pre.cfg)
+	if p[3] == 8 {
+		snap.ord = true // whatever the pre-state, SetFIFO may only ever switch it on
+	}
 	model := vhListOp(pre.s, pre.cfg, pre.model, p[3], p[2], "")
+	if p[3] == 8 {
+		snap.ord = pre.cfg.ord
+	}
 	vhInv(pre.s, pre.cfg, "inv")
 	vhAssertCfgSame(snap, vhSnapCfg(pre.cfg), "cfg")
 	vhAssertContent(pre.s, model, "content")
@@ -197,7 +225,7 @@ func VH_C01_Hist(p []int) {
 	s, cfg := vhCtor(p[2])
 	model := []any{}
 	for step := 0; step < p[0]; step++ {
-		op := nondetChoice(8)
+		op := nondetChoice(9)
 		model = vhListOp(s, cfg, model, op, p[1], "")
 		vhInv(s, cfg, "inv")
 		vhAssertContent(s, model, "content")
